@@ -258,6 +258,10 @@ def strategy(draw):
                                'callobj', 'boundmethod')))
   if shape['kind'] in ('callobj', 'boundmethod') and shape['api'] == 'configurable':
     shape['api'] = 'external'
+  if shape['kind'] in ('class_init', 'class_new') and shape['api'] == 'configurable' and draw(
+      st.integers(0, 2)) == 0:
+    # the class inherits its constructor from one or two configurable base classes
+    shape['configurable_base'] = draw(st.sampled_from([1, 2]))
   defaulted = shape['dflt'] + shape['kwdflt']
   shape['required_defaults'] = draw(st.lists(st.sampled_from(defaulted), unique=True)
                                     if defaulted else st.just([]))
